@@ -263,10 +263,23 @@ def replay_identity(objs):
     for dim, x0, canon in objs:
         try:
             x = build_any(x0, dim)
-            for name, t in (("identity()", g.identity(dim)), ("t**0", g.Transformation(np.arange((dim + 1) ** 2).reshape(dim + 1, dim + 1) % 5 + np.eye(dim + 1)) ** 0)):
+            mk_t = lambda: g.Transformation(np.arange((dim + 1) ** 2).reshape(dim + 1, dim + 1) % 5 + np.eye(dim + 1))  # noqa: E731
+            for name, t in (("identity()", g.identity(dim)), ("t**0", mk_t() ** 0)):
                 d = compare_any(t * x, canon)
                 if d is not None:
                     out.append(dict(site=f"{x0['k']}/{dim}D/{name}", stratum="identity", case={"d": dim, "x": x0}, expected=canon, observed=d))
+            # an identity obtained earlier and then turned into a translation / shear through item assignment is another
+            # transformation; identity(), t**0 and t.inverse() * t asked afterwards are still the identity
+            for how, first in (("identity()", lambda: g.identity(dim)), ("t**0", lambda: mk_t() ** 0)):
+                m = first()
+                m[0, dim] = 3.0
+                m[dim - 1, 0] = -2.0
+                tt = mk_t()
+                for name, t in (("identity()", g.identity(dim)), ("t**0", mk_t() ** 0), ("t.inverse()*t", tt.inverse() * tt), ("t**-1*t", tt ** -1 * tt)):
+                    d = compare_any(t * x, canon)
+                    if d is not None:
+                        out.append(dict(site=f"{x0['k']}/{dim}D/{name}/after-an-{how}-was-edited-in-place", stratum="identity", case={"d": dim, "x": x0},
+                                        expected=canon, observed=d))
         except Exception as e:  # noqa: BLE001
             out.append(dict(site=f"{x0['k']}/{dim}D/identity", stratum="identity", case={"d": dim, "x": x0}, expected=canon,
                             observed=f"raised {type(e).__name__}: {e}"))
